@@ -442,6 +442,9 @@ class ConcWorld(BaseWorld):
         self.sizes = dict(sizes or {})
         self.rng = random.Random(seed)
         self.big = seed % 4 == 3  # every fourth seed explores larger dimensions
+        # every fifth seed uses entries of tiny magnitude (data in a large unit): absolute tolerances hidden in the
+        # code under test show up there; the comparison tolerance of the contracts scales along
+        self.scale = 1e-10 if seed % 5 == 4 else 1.0
         self.fill = fill
         self.default_size = default_size
         self.checked = 0
@@ -494,7 +497,7 @@ class ConcWorld(BaseWorld):
             if self.fill is not None:
                 v = self.fill(name, idx)
             if v is None:
-                v = float(self.rng.randint(-9, 9)) + self.rng.choice([0.0, 0.5, 0.25])
+                v = (float(self.rng.randint(-9, 9)) + self.rng.choice([0.0, 0.5, 0.25])) * self.scale
             a[idx] = v
         self.inputs[name] = a.tolist()
         return a
@@ -580,7 +583,7 @@ class ConcWorld(BaseWorld):
             return math.isnan(a) and math.isnan(b)
         if math.isinf(a) or math.isinf(b):
             return a == b
-        return abs(a - b) <= 1e-9 * (1 + abs(a) + abs(b))
+        return abs(a - b) <= 1e-9 * (self.scale + abs(a) + abs(b))
 
     def sum(self, ranges, body):
         tot = 0.0
